@@ -9,7 +9,8 @@ from . import sut, wire
 BEHAVIOURS = ["always", "never", "stop2", "late-within", "late-beyond", "wrong-token", "unsolicited",
               "chatty-silent", "late-long", "never", "always", "slow-register", "slow-register-silent", "cap-renegotiate", "late-once-silent", "cap-open-silent", "cap-open-answering",
               "fragment-silent", "split-answers", "fragment-silent", "surplus-then-silent", "double-then-silent",
-              "surplus-then-silent", "busy-at-deadline", "busy-at-deadline", "blank-before-answers"]
+              "surplus-then-silent", "busy-at-deadline", "busy-at-deadline", "blank-before-answers",
+              "busy-late-pong", "busy-late-pong", "busy-late-pong"]
 
 
 class Lag(threading.Thread):
@@ -85,6 +86,7 @@ class Peer:
         if m.verb == "PING":
             self.server_pings.append(now)
             tok = m.params[-1] if m.params else ""
+            self.last_tok = tok
             b = self.b
             answer = None
             if b in ("always", "unsolicited", "slow-register", "cap-renegotiate", "cap-open-answering", "split-answers",
@@ -180,7 +182,7 @@ class Peer:
             self.c.send("PONG :" + a[1])
             self.answered += 1
         if now >= self.next_own_ping and self.b not in ("never", "fragment-silent", "split-answers", "surplus-then-silent",
-                                                         "double-then-silent", "busy-at-deadline"):
+                                                         "double-then-silent", "busy-at-deadline", "busy-late-pong"):
             self.n += 1
             # "a PONG carrying the same token": ordinary and odd tokens (empty, leading colon, blanks, multi-byte)
             odd = ["", ":", ":-) %d", "a:b%d", "two words %d", "é%d", "::%d", " lead%d", "#%d", "%d:", "trail%d ",
@@ -201,6 +203,16 @@ class Peer:
             else:
                 self.c.send("PING :" + tok)
             self.next_own_ping = now + 0.9
+        if self.b == "busy-late-pong" and self.first_unanswered is not None and not self.mark_sent:
+            # as below, but the burst ends with the PONG that is due - too late: whichever the server sees first, the
+            # expired timeout or the late answer, the session ends and is cleaned up like any other
+            due = self.first_unanswered + self.Q
+            if now >= due - 0.004 * (1 + self.idx % 6):
+                # (OPER, PONG) pairs back to back across the deadline: a PONG that is executed before the deadline is a
+                # valid answer (the peer lives on and tries again at the next PING), one that comes after it is late
+                self.c.send_raw((b"OPER root wrong\r\nPONG :" + self.last_tok.encode() + b"\r\n") * 14)
+                self.first_unanswered = None
+                self.racy_rounds = getattr(self, "racy_rounds", 0) + 1
         if self.b == "busy-at-deadline" and self.first_unanswered is not None and not self.mark_sent:
             # never answers; around the moment its pong timeout expires it keeps its own handler busy with commands (wrong
             # OPER attempts, ~3 ms each): the timeout must not get lost because nobody was waiting for it at that instant
@@ -270,20 +282,21 @@ def run_config(args):
                                             "[%s] %s: %d client PINGs without a PONG carrying the token" % (tag, p.nick, len(stale))))
                 if [e for e in p.events if e[1] == "unexpected-pong"]:
                     out["findings"].append(("clock:pong-wrong-token|" + p.b, "[%s] %s: %s" % (tag, p.nick, p.events[:2])))
+                racy = p.b == "busy-late-pong"
                 # R2 live peers stay
                 if responsive and p.closed_at is not None:
                     out["findings"].append(("clock:live-peer-dropped|" + p.b,
                                             "[%s] %s answered every PING (%d of %d) but was disconnected after %.1f s: %s"
                                             % (tag, p.nick, p.answered, len(p.server_pings), T, p.error_line)))
                 # R3 the server keeps pinging (bounded progress)
-                if p.closed_at is None or responsive:
+                if (p.closed_at is None or responsive) and not racy:
                     want = int(T // P) - 1
                     if len(p.server_pings) < want:
                         out["findings"].append(("clock:too-few-pings|" + p.b,
                                                 "[%s] %s: %d server PINGs in %.1f s (expected at least %d)"
                                                 % (tag, p.nick, len(p.server_pings), T, want)))
                 # R4 dead peers go
-                if not responsive and p.first_unanswered is not None:
+                if not responsive and not racy and p.first_unanswered is not None:
                     # (a peer that kept its own handler busy across the deadline is judged from the end of its burst)
                     deadline = max(p.first_unanswered + Q, p.burst_end or 0) + slack
                     if p.closed_at is None:
@@ -293,13 +306,13 @@ def run_config(args):
                                                     "%.1f s later (pong_timeout %d s, slack %.1f s)"
                                                     % (tag, p.nick, p.b, p.first_unanswered - p.t_reg,
                                                        now - p.first_unanswered, Q, slack)))
-                    elif p.closed_at > deadline:
+                    elif p.closed_at > deadline and p.b != "busy-late-pong":
                         out["findings"].append(("clock:dead-peer-late|" + ("never" if p.b != "late-beyond" else p.b),
                                                 "[%s] %s (%s) dropped %.1f s after the unanswered PING (pong_timeout %d s, "
                                                 "slack %.1f s)" % (tag, p.nick, p.b, p.closed_at - p.first_unanswered, Q, slack)))
                     # (a peer that is still writing when the server closes may lose the unread ERROR line to the reset its
                     # own late bytes provoke: TCP, not the server)
-                    if p.closed_at is not None and p.b != "busy-at-deadline" \
+                    if p.closed_at is not None and p.b not in ("busy-at-deadline", "busy-late-pong") \
                             and (p.error_line is None or "timeout" not in p.error_line.lower()):
                         out["findings"].append(("clock:no-error-line|" + p.b,
                                                 "[%s] %s closed without an ERROR about the timeout: %r" % (tag, p.nick, p.error_line)))
